@@ -214,6 +214,45 @@ def store_sites(repo):
     return [(f, fn, what) for _, f, fn, what in sites]
 
 
+def entry_sites(repo):
+    """Every non-test, non-hook call of `add_known_address` / `dial_address` in src/**/*.rs (method or
+    path calls; definitions are not sites): (file relative to src/, enclosing function, callee) in the
+    order of the source. These are all the ways an address can be offered to the address book."""
+    sites = []
+    root = os.path.join(repo, "src")
+    paths = []
+    for d, _, fs in os.walk(root):
+        for f in fs:
+            if f.endswith(".rs"):
+                paths.append(os.path.relpath(os.path.join(d, f), root))
+    for rel in sorted(paths):
+        parts = rel.split(os.sep)
+        base = parts[-1]
+        if "tests" in parts or base in ("tests.rs", "mock.rs") or "s2n-quic" in parts:
+            continue
+        if base == "verif.rs" or base.startswith("verif_"):
+            continue
+        src = open(os.path.join(root, rel)).read()
+        clean = strip_tests(strip_verif(src, blank(src)))
+        for m in re.finditer(r"(?:\.|::)\s*(add_known_address|dial_address)\s*\(", clean):
+            sites.append((rel.replace(os.sep, "/"), enclosing_fn(clean, m.start()) or "?", m.group(1)))
+    return sites
+
+
+def new_call_order(repo):
+    """The calls of `register_listen_address` and `add_known_address` inside `Litep2p::new`
+    (src/lib.rs), in source order: the configured known addresses must be filtered against the listen
+    addresses the transports have registered."""
+    src = open(os.path.join(repo, "src", "lib.rs")).read()
+    clean = strip_tests(strip_verif(src, blank(src)))
+    m = re.search(r"\bpub\s+fn\s+new\s*\(", clean)
+    if not m:
+        return []
+    j = clean.index("{", m.end())
+    body = clean[j:match_brace(clean, j)]
+    return [x.group(1) for x in re.finditer(r"\.\s*(register_listen_address|add_known_address)\s*\(", body)]
+
+
 def generate(repo):
     missing = []
     try:
@@ -279,12 +318,20 @@ def generate(repo):
                 continue
             lhs, rhs = arm.split("=>", 1)
             val = eval_score(rhs, consts)
-            if val is None or re.search(r"\bif\b", lhs):
+            # a `#[cfg(feature = ..)]` attribute on an arm is accepted when every pattern of the arm lies
+            # under a variant that is itself feature-gated (the arm then exists exactly when its
+            # variants do, so it reads like an ungated arm); any other attribute is unreadable
+            gated_arm = False
+            am = re.match(r"\s*#\[cfg\(\s*feature\s*=[^\]]*\)\]", lhs)
+            if am:
+                gated_arm = True
+                lhs = lhs[am.end():]
+            if val is None or re.search(r"\bif\b", lhs) or "#[" in lhs:
                 missing.append(("C10_ERROR_SCORE_ARMS", ADDR, "unreadable arm: " + arm.strip()[:60]))
                 continue
             for pat in split_top(lhs, "|"):
                 path = pattern_path(pat, tables)
-                if path is None:
+                if path is None or (gated_arm and not any(path[:len(g)] == g for g, _ in gates)):
                     missing.append(("C10_ERROR_SCORE_ARMS", ADDR, "unreadable pattern: " + pat.strip()[:60]))
                 else:
                     arms.append((path, val))
@@ -297,21 +344,40 @@ def generate(repo):
         missing.append(("C10_STORE_SITES", MGR, str(e)))
     if not sites:
         missing.append(("C10_STORE_SITES", MGR, "no address-store write site found"))
-    write(variants, gates, arms, sorted(consts.items()), sites)
+    try:
+        entries = entry_sites(repo)
+        order = new_call_order(repo)
+    except (OSError, ValueError) as e:
+        entries, order = [], []
+        missing.append(("C10_ENTRY_SITES", "src", str(e)))
+    if not entries:
+        missing.append(("C10_ENTRY_SITES", "src", "no add_known_address / dial_address call found"))
+    # the version of the ip_network crate the classification of coq/C10/IpClass.v was transcribed from
+    ipn = ""
+    try:
+        lock = open(os.path.join(repo, "Cargo.lock")).read()
+        vs = re.findall(r'name\s*=\s*"ip_network"\s*\nversion\s*=\s*"([^"]+)"', lock)
+        ipn = ",".join(sorted(set(vs)))
+    except OSError as e:
+        missing.append(("C10_ENTRY_SITES", "Cargo.lock", str(e)))
+    if not ipn:
+        missing.append(("C10_ENTRY_SITES", "Cargo.lock", "package ip_network not found"))
+    write(variants, gates, arms, sorted(consts.items()), sites, entries, order, ipn)
     leaves = 0
     for _, l2 in variants:
         if not l2:
             leaves += 1
         for _, l3 in l2:
             leaves += max(1, len(l3))
-    return {"C10_DIAL_ERROR_LEAVES": leaves, "C10_ERROR_SCORE_ARMS": len(arms), "C10_STORE_SITES": len(sites)}, missing
+    return {"C10_DIAL_ERROR_LEAVES": leaves, "C10_ERROR_SCORE_ARMS": len(arms), "C10_STORE_SITES": len(sites),
+            "C10_ENTRY_SITES": len(entries)}, missing
 
 
 def coq_z(v):
     return "(%d)%%Z" % v
 
 
-def write(variants, gates, arms, consts, sites):
+def write(variants, gates, arms, consts, sites, entries=(), order=(), ipn=""):
     def strs(l):
         return "[" + "; ".join('"%s"' % x for x in l) + "]"
 
@@ -347,6 +413,18 @@ def write(variants, gates, arms, consts, sites):
         "   into a peer's address store or replaces/removes a peer context: (file, function, what) *)",
         "Definition store_sites : list (string * string * string) :=",
         "  [" + ";\n   ".join('("%s", "%s", "%s")' % t for t in sites) + "].",
+        "",
+        "(* every non-test, non-hook call of add_known_address / dial_address in src/**/*.rs:",
+        "   (file, enclosing function, callee) *)",
+        "Definition entry_sites : list (string * string * string) :=",
+        "  [" + ";\n   ".join('("%s", "%s", "%s")' % t for t in entries) + "].",
+        "",
+        "(* the register_listen_address / add_known_address calls of Litep2p::new (src/lib.rs), in source order *)",
+        "Definition new_call_order : list string :=",
+        "  [" + "; ".join('"%s"' % x for x in order) + "].",
+        "",
+        "(* version(s) of the ip_network crate in Cargo.lock *)",
+        'Definition ip_network_version : string := "%s".' % ipn,
     ]
     text = "\n".join(lines) + "\n"
     os.makedirs(os.path.dirname(OUT), exist_ok=True)
